@@ -29,6 +29,10 @@ func genC37(t *Tape) *Plan {
 		}
 		plan.Ops = append(plan.Ops, Op{Kind: "connect", Slot: s, Pkt: &refcodec.Packet{Type: refcodec.CONNECT, ProtoVer: ver, ClientID: fmt.Sprintf("k%d", s), CleanStart: true, KeepAlive: k}})
 		conns = append(conns, cs{k})
+		if t.Draw("c37.sub", 2) == 0 {
+			// the idle client also receives traffic: only packets *from* the client count for its keepalive
+			plan.Ops = append(plan.Ops, Op{Kind: "subscribe", Slot: s, Pkt: &refcodec.Packet{Type: refcodec.SUBSCRIBE, PacketID: 1, Filters: []refcodec.Filter{{Filter: "t", Opts: byte(t.Draw("c37.subqos", 2))}}}})
+		}
 	}
 	steps := 2 + t.Draw("c37.steps", 5)
 	for i := 0; i < steps; i++ {
